@@ -84,6 +84,13 @@ class C19(Property):
             d = rng.uniform(5.0, 90.0)
             items.append((0, [(x, y, "C"), (x, y, None), (g.f32(x + d), g.f32(y + 1.0), None)], "catmull-doubled-first"))
         items.append((1, [(404.0, -3.0, "P"), (279.0, 148.9139862060547, None), (358.74554443359375, 51.998291015625, None)], "witness-F13"))
+        # the last two control points equal as numbers but not bit for bit (+0.0 against -0.0 in a coordinate): the "path ends in
+        # two identical points" rule compares numbers (seed C19-k: a bitwise PartialEq for Pos)
+        for _ in range(40 if tier == "quick" else 800):
+            t = rng.choice(["L", "L", "B", "C"])
+            x, y = rng.choice([(100.0, 0.0), (0.0, 50.0), (0.0, 0.0), (float(rng.randint(-50, 300)), 0.0)])
+            flip = lambda v: -v if v == 0.0 else v
+            items.append((rng.choice(g.MODES), [(float(rng.randint(-5, 5)), float(rng.randint(1, 9)) * 7.0, t), (x, y, None), (flip(x), flip(y), None)], "last-two-equal-signed-zero"))
         lens = g.natural_lengths(core.run_impl, [(m, p) for m, p, _ in items])
         pre = []
         for (m, pts, tag), cl in zip(items, lens):
@@ -92,6 +99,8 @@ class C19(Property):
             if tag == "catmull-doubled-first":
                 classes = [("tiny", rng.uniform(0.01, 5.0))] + classes
                 name, L = classes[0] if rng.random() < 0.7 else rng.choice(classes)
+            elif tag == "last-two-equal-signed-zero" and nat and rng.random() < 0.6:
+                name, L = "beyond-natural", nat * rng.choice([1.5, 2.0, 1.01])
             else:
                 name, L = rng.choice(classes)
             pre.append((m, pts, tag, name, L))
